@@ -6,7 +6,7 @@ from props.c02 import allowed_states
 
 LEVEL = "fault_enumeration"
 COQ_TARGETS = ("props/C13.vo",)
-THEOREMS = ["C13_poison_sticky_partial"]
+THEOREMS = ["C13_no_operation_clears_the_flag", "C13_poisoned_forever", "C13_poisoned_refuses_writes_and_clears", "C13_poison_sticky_partial"]
 WRITE_OPS = ("put", "del", "delw", "batch", "clear", "persist", "take", "fu", "uf")
 
 
